@@ -17,10 +17,11 @@ contract("proto:rule_call", trusted=True,
         "reader_lines_kept": "implies(old(len(reader.source_lines) > 0 and 0 <= reader.linecount and reader.linecount + len(reader.filo_line) == len(reader.source_lines)), len(reader.source_lines) > 0 and 0 <= reader.linecount and reader.linecount + len(reader.filo_line) == len(reader.source_lines))",
         "result_is_new_node": "implies(result is not None, not was_allocated(result))",
         "lines_read": "implies(result is not None, len(reader.source_lines) > 0 and 0 <= reader.linecount and reader.linecount + len(reader.filo_line) == len(reader.source_lines))",
+        "reader_lines_consistent": "implies(old(0 <= reader.linecount and reader.linecount + len(reader.filo_line) == len(reader.source_lines)), 0 <= reader.linecount and reader.linecount + len(reader.filo_line) == len(reader.source_lines))",
     },
     # any exception may come out of a rule; the scope stack and the table registry are as before the call;
     # a rule that reports "no match" by raising NoMatchError has put back what it took
-    raises={"NoMatchError": {"restores": "view == old(view)", "reader_lines_kept": "implies(old(len(reader.source_lines) > 0 and 0 <= reader.linecount and reader.linecount + len(reader.filo_line) == len(reader.source_lines)), len(reader.source_lines) > 0 and 0 <= reader.linecount and reader.linecount + len(reader.filo_line) == len(reader.source_lines))"}, "*!NoMatchError!StopIteration": {}},
+    raises={"NoMatchError": {"restores": "view == old(view)", "reader_lines_consistent": "implies(old(0 <= reader.linecount and reader.linecount + len(reader.filo_line) == len(reader.source_lines)), 0 <= reader.linecount and reader.linecount + len(reader.filo_line) == len(reader.source_lines))", "reader_lines_kept": "implies(old(len(reader.source_lines) > 0 and 0 <= reader.linecount and reader.linecount + len(reader.filo_line) == len(reader.source_lines)), len(reader.source_lines) > 0 and 0 <= reader.linecount and reader.linecount + len(reader.filo_line) == len(reader.source_lines))"}, "*!NoMatchError!StopIteration": {}},
     note="rule-call protocol G3 (scope_stack and SYMBOL_TABLES._symbol_tables are not in the modifies clause: unchanged on every exit)")
 
 contract("proto:restore_reader", trusted=True,
